@@ -151,6 +151,8 @@ def main():
             n = M.NPAT[tmpl]; step = 16 if tmpl == "net2d" else 8
             for bits in range(n):
                 for alg in algs:
+                    sub = bits % step == (5 if tmpl == "net2d" else 3)
+                    if alg != algs[0] and not (sub or bits % 4 == 1): continue     # second algorithm: every 4th pattern
                     add(tmpl, bits, alg, "core")
                     # the transitions whose effect does not depend on the signs of the errors run on every
                     # step-th pattern (a fixed sub-family: 0x05, 0x15, ... / 0x03, 0x0b, ...)
@@ -175,11 +177,12 @@ def main():
                 v = viol.setdefault(sig, [0, []]); v[0] += n
                 for e in exs:
                     if len(v[1]) < 3: v[1].append(e)
-    for sig in sorted(viol):
+    for sig in sorted(viol):            # first the written-out examples of every signature ...
+        for (msg, payload) in viol[sig][1]:
+            ck.violation(sig, msg, replay=payload)
+    for sig in sorted(viol):            # ... then the remaining occurrences are only counted
         n, exs = viol[sig]
         k = ck.known.match(ck.pid, sig)
-        for (msg, payload) in exs:
-            ck.violation(sig, msg, replay=payload)
         rest = n - len(exs)
         if rest > 0:
             if k: ck.nknown[k[0]] = ck.nknown.get(k[0], 0) + rest
@@ -194,14 +197,14 @@ def main():
             "netcy (the same with x-y and y-z covariances; translation and axes transitions only) x 2^6. "
             "transitions (menu sizes %s): translation {(1e3,-2e3),(1e6,5e6)} (+500 m heights); zero of each direction set turned by {1e-4,100,199.9999,200,200.0001,399.9999} gon; "
             "all permutations of point records, of clusters and of the observations of each cluster (<=5 items: all n!-1; 6 items: 5 cyclic shifts + reversal + 5 adjacent "
-            "transpositions), covariance matrices permuted; 3 id maps (order reversing numeric, non-ASCII UTF-8, 40 characters); gon -> d-m-s with stdev/covariances in arc seconds "
+            "transpositions), covariance matrices permuted; 36 id maps (order reversing numeric; mixed 2-/3-/4-byte UTF-8; 40 characters; inner single blanks and no-break spaces; two generated families u2-0..15 / u3-0..15 of 2- and 3-byte UTF-8 ids whose continuation bytes between them take every value 0x80..0xBF in every position, with ids that differ in one continuation byte only and ids with an inner blank); gon -> d-m-s with stdev/covariances in arc seconds "
             "for every non-empty subset of clusters + alternating observations; ends swapped for every non-empty subset of the distances; 8 axes-xy x 2 angles. "
             % json.dumps(menu).replace('"', ""))
     if thorough:
         rule += ("thorough: every single transition on every base x 4 algorithms, plus all ordered pairs of distinct letters of the reduced menu "
-                 "(net2d 25, net3d 19, lev 9, netc 17 letters) on every base with algorithm = ALGS[pattern mod 4]. ")
+                 "(net2d 26, net3d 20, lev 10, netc 18 letters) on every base with algorithm = ALGS[pattern mod 4]. ")
     else:
-        rule += ("quick: algorithms envelope+gso; translation/turn/axes transitions on every base, all other single transitions on every 16th (net2d) / 8th (other templates) pattern. ")
+        rule += ("quick: translation/turn/axes transitions on every base with envelope and on every 4th pattern also with gso; all other single transitions on every 16th (net2d) / 8th (other templates) pattern (envelope and gso). ")
     rule += ("a state = one distinct (base network, word) input text, a transition = one gama-local execution; oracle per state: adjusted/fixed/approximate coordinates = affine image, "
              "residuals (adj-obs) equal (horizontal angular ones times the sense), echoed observation = written value, [pvv], dof, counts, m0, confidence scale, stdev/qrr/f/std-residual "
              "of every observation, ellipse axes equal; ellipse bearing, orientation shifts and the covariance matrix of the unknowns transformed as prescribed; non-trivial = input text differs from the base text")
